@@ -364,7 +364,8 @@ def check_C08(run, replay):
                 "iteration t in the production loop with 1 and 2 threads and compares every accumulator, next strategy, "
                 "bounds and the returned normalised average; half of the scale-invariant cases are run with payoffs and regrets "
                 "multiplied by 2^-70 or 2^60 (positive homogeneity; exact in binary floating point); "
-                "non-trivial = every case; distinct by canonical JSON")
+                "two-step: the same from injected states with exact parameters over TWO consecutive iterations (MC_CfrStep2: state "
+                "carried between iterations besides the three accumulators); non-trivial = every case; distinct by canonical JSON")
     run.assumptions = ["irrational discount factors t^e/(t^e+1), (t/(t+1))^g and the finite-weight softmax are evaluated by "
                        "the harness with f64 powf/exp from the documented formulas (DESIGN 3.1)",
                        "comparison tolerance 1e-10 relative"]
@@ -384,6 +385,11 @@ def check_C08(run, replay):
             kinds[k] = kinds.get(k, 0) + 1
     run.notes["regret_matching_branches_exercised"] = kinds
     run.notes["step_classes"] = class_counts(rows)
+    absorb(run, rows, cases, mismatch_sig("cfr"))
+    # two consecutive iterations from an injected state (hidden state carried between iterations)
+    n = 500 if run.tier == "quick" else 6000
+    cases, rows = oracle_cases(run, "MC_CfrStep2", "step2", "step2", n, "step2")
+    run.notes["two_step_classes"] = class_counts(rows)
     absorb(run, rows, cases, mismatch_sig("cfr"))
     # glue: exact trajectories T = 0..3 from the documented initial state through the public api
     n = 600 if run.tier == "quick" else 8000
